@@ -393,6 +393,28 @@ static void fam_structure(void)
 	int nl = mc_tier ? 6 : 4;
 	struct vfam f = {.width = 2, .leaves = leaves, .nleaves = nl, .keys = keys, .nkeys = 3, .dup_keys = 0};
 	vfam_init(&f, 2);
+	/* the literals and the empty containers, alone, inside an array and as a member value */
+	cur_fam = "literals";
+	for (int k = 0; k < 5; k++)
+	{
+		va_reset();
+		check_in_contexts(k == 0 ? v_null() : k == 1 ? v_bool(0) : k == 2 ? v_bool(1) : k == 3 ? v_arr(0) : v_obj(0), 1);
+	}
+	{
+		va_reset();
+		V *a = v_arr(5);
+		a->items[0] = v_bool(0);
+		a->items[1] = v_null();
+		a->items[2] = v_bool(1);
+		a->items[3] = v_arr(0);
+		a->items[4] = v_obj(0);
+		check_tree(a);
+		V *o = v_obj(3);
+		v_obj_set(o, 0, "f", 1, v_bool(0));
+		v_obj_set(o, 1, "n", 1, v_null());
+		v_obj_set(o, 2, "t", 1, v_bool(1));
+		check_tree(o);
+	}
 	cur_fam = "structure-T22";
 	for (uint64_t i = 0; i < f.count[2]; i++)
 	{
